@@ -669,6 +669,16 @@ def make_builtins(interp):
     for n in ["ValueError", "TypeError", "RuntimeError", "ArithmeticError", "LookupError",
               "AttributeError", "StopIteration", "AssertionError", "OSError", "ImportError"]:
         exc(n, "Exception")
+    for n in ["SystemError", "MemoryError", "EOFError", "BufferError", "ReferenceError", "Warning"]:
+        exc(n, "Exception")
+    exc("SystemExit", "BaseException")
+    exc("GeneratorExit", "BaseException")
+    exc("FloatingPointError", "ArithmeticError")
+    exc("RecursionError", "RuntimeError")
+    exc("TimeoutError", "OSError")
+    exc("FileNotFoundError", "OSError")
+    exc("DeprecationWarning", "Warning")
+    exc("UserWarning", "Warning")
     exc("NameError", "Exception")
     exc("UnboundLocalError", "NameError")
     exc("ZeroDivisionError", "ArithmeticError")
@@ -1017,13 +1027,18 @@ class Exec:
                     self.call(self.getattr(m, "__exit__"), [None, None, None], {})
 
     # ---- loops -----------------------------------------------------------------------
-    def next_loop_spec(self):
+    def next_loop_spec(self, node=None):
+        """loops are numbered by their syntactic position in the enclosing function (source order), never by line number"""
+        if node is not None and self.func is not None:
+            k = _loop_ordinals(self.func.node).get(id(node))
+            if k is not None:
+                return k, self.interp.loop_specs.get((self.qual, k))
         k = self.loop_ordinal
         self.loop_ordinal += 1
         return k, self.interp.loop_specs.get((self.qual, k))
 
     def s_While(self, s):
-        k, spec = self.next_loop_spec()
+        k, spec = self.next_loop_spec(s)
         if spec is None:
             # concrete unrolling when the condition stays concrete
             n = 0
@@ -1088,7 +1103,7 @@ class Exec:
         raise PathEnd()
 
     def s_For(self, s):
-        k, spec = self.next_loop_spec()
+        k, spec = self.next_loop_spec(s)
         it = self.expr(s.iter)
         if spec is not None:
             if not hasattr(it, "_pv_generic"):
@@ -1813,6 +1828,25 @@ class Exec:
 
 
 _LOCALS_CACHE = {}
+_LOOPS_CACHE = {}
+
+
+def _loop_ordinals(fnode):
+    k = id(fnode)
+    if k not in _LOOPS_CACHE:
+        loops = []
+
+        def visit(n):
+            for c in ast.iter_child_nodes(n):
+                if isinstance(c, (ast.FunctionDef, ast.Lambda, ast.ClassDef)):
+                    continue
+                if isinstance(c, (ast.For, ast.While)):
+                    loops.append(c)
+                visit(c)
+        visit(fnode)
+        loops.sort(key=lambda n: (n.lineno, n.col_offset))
+        _LOOPS_CACHE[k] = {id(n): i for i, n in enumerate(loops)}
+    return _LOOPS_CACHE[k]
 
 
 def _local_names(node):
